@@ -6,8 +6,8 @@
 From Coq Require Import List NArith ZArith Bool.
 From Coq Require String.
 Import String.StringSyntax.
-From Sccache Require Import Base.Sx Model.DistStatus Model.DistFallback Model.DistArgs Model.DistHistory Model.DistRustInputs.
-From Sccache Require Proofs.DistStatus Proofs.DistFallback Proofs.DistArgs Proofs.DistHistory Proofs.DistRustInputs.
+From Sccache Require Import Base.Sx Model.DistStatus Model.DistFallback Model.DistArgs Model.DistHistory Model.DistRustInputs Model.DistPaths.
+From Sccache Require Proofs.DistStatus Proofs.DistFallback Proofs.DistArgs Proofs.DistHistory Proofs.DistRustInputs Proofs.DistPaths.
 Import ListNotations.
 
 (* ------------------------------------------------------------------ exit status *)
@@ -260,6 +260,47 @@ Example rust_inputs_examples :
   /\ packaged [[TLib]] true true = Some Complete
   /\ packaged [[TRlib]; [TCdylib]] false true = None.
 Proof. vm_compute. auto. Qed.
+
+(* ------------------------------------------------------------------ input paths and the rlib dependency reader *)
+
+(* simplify_path, over any kernel path walk in which `.` stays and `..` out of a directory whose own entry is not a
+   symbolic link is its lexical parent: if the path is not refused and the original path names a file, the
+   simplified path (after which the archive entry is named) names the same file *)
+Theorem C13_simplify_same_file :
+  forall (node : Type) (walk : node -> comp -> option node) (start : node) (is_link : list name -> bool),
+  (forall n, walk n CDot = Some n) ->
+  (forall acc n, is_link acc = false -> Proofs.DistPaths.resolve node walk start acc = Some n ->
+                 walk n CDotDot = Proofs.DistPaths.resolve node walk start (removelast acc)) ->
+  forall cs acc q m,
+    simplify is_link cs acc = Some q ->
+    Proofs.DistPaths.walks node walk (Proofs.DistPaths.resolve node walk start acc) cs = Some m ->
+    Proofs.DistPaths.resolve node walk start q = Some m.
+Proof. exact Proofs.DistPaths.simplify_same_file. Qed.
+Print Assumptions C13_simplify_same_file.
+
+(* the RlibDepReader cache: after any history of rebuilds (which advance the modification time) and lookups, a
+   lookup answers with the crates the file's metadata names NOW, never with a list read from an earlier build *)
+Theorem C13_rlib_deps_current : forall (ops : list rop) (p : N),
+  let s := snd (rrun r_init ops) in
+  snd (rstep s (RDiscover p)) = match alookup p (r_files s) with Some f => Some (f_deps f) | None => None end.
+Proof. exact Proofs.DistPaths.rlib_deps_current. Qed.
+Print Assumptions C13_rlib_deps_current.
+
+(* `proj/link/../foo.c` with `link` a symbolic link is refused; without the link it is `proj/foo.c`;
+   `..` right after a real directory below the link is fine *)
+Example simplify_examples :
+  let lk := [([bs "proj"; bs "link"], (false, [CDotDot; CName (bs "real"); CName (bs "gen")]))] in
+  simplify_in lk [CName (bs "proj"); CName (bs "link"); CDotDot; CName (bs "foo.c")] = None
+  /\ simplify_in [] [CName (bs "proj"); CName (bs "link"); CDotDot; CName (bs "foo.c")] = Some [bs "proj"; bs "foo.c"]
+  /\ simplify_in lk [CName (bs "proj"); CName (bs "link"); CName (bs "x"); CDotDot; CName (bs "y")]
+     = Some [bs "proj"; bs "link"; bs "y"].
+Proof. vm_compute. auto. Qed.
+
+(* bdep is rebuilt to the same path and now names cdep: the next lookup sees it *)
+Example rlib_deps_example :
+  fst (rrun r_init [RBuild 2 []; RDiscover 2; RBuild 2 [1%N]; RDiscover 2])
+  = [None; Some []; None; Some [1%N]].
+Proof. vm_compute. reflexivity. Qed.
 
 (* ------------------------------------------------------------------ remote command line *)
 
